@@ -530,10 +530,11 @@ func runC05(e *core.Env, n int) {
 			// asked for the headers first)
 			sc.Handler = sc.Handler[:2]
 		}
-		if single || r.Intn(2) == 0 {
+		full := i%3 == 0 // a surplus response, a trailer and a failure: the most final frames a handler can leave behind
+		if single || full || r.Intn(2) == 0 {
 			sc.Handler = append(sc.Handler, Op{Op: "settrl", MD: metadata.MD{"t": {"v"}}})
 		}
-		if single || r.Intn(2) == 0 {
+		if single || full || r.Intn(2) == 0 {
 			sc.Ret = Ret{How: "status", Code: uint32(1 + r.Intn(16)), Msg: "failed after responding"}
 		}
 		sc.Receiver = []Op{{Op: "header"}, {Op: "gate", Gate: "handler-returned"}, {Op: "recv"}, {Op: "recv"}}
